@@ -240,7 +240,7 @@ def oracle_c03(obs: Obs):
                 if want is None or inst.result_meta != want:
                     out.append(('meta-missing', f'instance of node {i} {k} has result_meta {inst.result_meta!r}, outcome meta {want!r}'))
             if i in ref.executes:
-                for d in U.own_deps(inst):
+                for d in U.all_dep_instances(inst):
                     visit(d)
         for t in obs.req_tasks:
             visit(t)
